@@ -37,9 +37,9 @@ from mistletoe.markdown_renderer import MarkdownRenderer          # noqa: E402
 
 LMAX = 120
 FIXED_L = [1, 2, 3, 4, 5, 10, 20, 40, 80, 120]
-CHUNK = 12
-SHRINK_BUDGET = 200
-SHRINK_PER_CHUNK = 6
+CHUNK = 16
+SHRINK_BUDGET = 120
+SHRINK_PER_CHUNK = 3
 MAX_FAILURES = int(os.environ.get('VERIF_MAXFAIL', '400'))
 
 PREFIX = re.compile(r'(?:> ?| +|[-+*] +|\d{1,9}[.)] +)*')
